@@ -288,7 +288,7 @@ def build(repo, udp=False):
             }
             assert(self.header.code != MessageClass::Empty <==> u8_of_class(self.header.code) != 0);
         }''')
-    u.before(TBI, r'if limit\.is_some\(\) && buf_length > limit\.unwrap\(\)', '''        proof {
+    u.before(TBI, r'if [^{;]*\blimit\b[^{;]*\{', '''        proof {
             let h = seq![self.header.ver_type_tkl, u8_of_class(self.header.code), (self.header.message_id / 256) as u8, (self.header.message_id % 256) as u8];
             assert(h.len() == 4);
             let tail = if u8_of_class(self.header.code) != 0 && self.payload@.len() > 0 { seq![0xFFu8] + self.payload@ } else { Seq::<u8>::empty() };
